@@ -394,7 +394,7 @@ class Eng:
         self.ops = Counter()
         self.nbad = Counter()
         self.tag = M.tag()
-        self.fillw = bytes([lib.fill]) * self.nb
+        self.fillw = bytes([lib.fillbyte]) * self.nb
 
     # ---- encodings ----
     def enc2(self, P):
